@@ -35,7 +35,7 @@ ASSUMPTIONS = [
     "Fractional powers: only fixed gates, reference = principal branch with Log(-1) = +i pi (scipy fractional_matrix_power convention).",
     "Instances needing more than MAXW wires in total are rejected (harness size bound).",
 ]
-BUDGET = {"quick": {"examples": 4200}, "thorough": {"examples": 160000, "shards": 16}}
+BUDGET = {"quick": {"examples": 1000}, "thorough": {"examples": 160000, "shards": 16}}
 MAXW = {"quick": 9, "thorough": 10}
 TOL = 1e-8
 SHRINK_LISTS = ()
@@ -43,6 +43,11 @@ SHRINK_LISTS = ()
 
 def strategy(tier):
     return R.targets().map(lambda s: {**s, "maxw": MAXW[tier]})
+
+
+def enumerate_cases(tier):
+    per = {"B": 2, "A": 1, "P": 1, "C": 2} if tier == "quick" else {"B": 6, "A": 3, "P": 6, "C": 12, "N": 8}
+    return R.sweep(per, MAXW[tier])
 
 
 # ---------------------------------------------------------------------------------------------
@@ -163,21 +168,94 @@ def all_work_wires(op):
     return out
 
 
-def expand(ops, depth=0):
-    """Emitted operators that define no matrix (templates such as PhaseAdder, whose `wires` even omit its work
-    wire) are replaced by their own documented decomposition so that the reference simulator can run them."""
+def simulable(o):
+    """Can the reference simulator multiply this operator out without asking PennyLane to decompose it?"""
+    name = type(o).__name__
+    if name in ("GlobalPhase", "Identity", "Barrier", "Snapshot", "WireCut"):
+        return True
+    if hasattr(o, "operands"):
+        return name in ("Prod", "Sum") and all(simulable(x) for x in o.operands)
+    if hasattr(o, "base") and not isinstance(getattr(type(o), "base", None), type(None)) and o.base is not None and name not in ("ControlledSequence",):
+        if name in ("Pow", "Pow2", "PowOperation") and not float(o.z).is_integer():
+            return bool(o.has_matrix) and simulable(o.base)
+        return simulable(o.base)
+    return bool(o.has_matrix)
+
+
+def _culprit(ops):
+    """Which emitted operator's matrix() raised? -> (class name, features, detail)"""
+    for o in ops:
+        try:
+            sim.op_matrix(o)
+        except Exception as e:  # noqa: BLE001
+            b = o
+            while getattr(b, "base", None) is not None and type(b).__name__ != "ControlledSequence":
+                b = b.base
+            feat = {"op": type(b).__name__, "exc": type(e).__name__}
+            if type(b).__name__ == "IntegerComparator":
+                hp = b.hyperparameters
+                feat.update(value_ge_dim=bool(hp["value"] > 2 ** len(hp["control_wires"])), geq=bool(hp["geq"]))
+            return type(b).__name__, feat, f"{o} whose matrix raises {type(e).__name__}: {e}"
+    return "unknown", {"op": "unknown"}, "an operator whose matrix raises"
+
+
+def _needs_pl_matrix(o):
+    """True when the reference simulator would have to ask PennyLane for this operator's matrix."""
+    from pv.ref import gates as G
+
+    name = type(o).__name__
+    if hasattr(o, "operands"):
+        return any(_needs_pl_matrix(x) for x in o.operands)
+    if hasattr(o, "base") and o.base is not None and name != "ControlledSequence":
+        return _needs_pl_matrix(o.base)
+    return name not in G.FIXED and name not in G.PARAM and name not in (
+        "GlobalPhase", "Identity", "MultiRZ", "PauliRot", "PCPhase", "MultiControlledX", "QubitUnitary", "DiagonalQubitUnitary")
+
+
+class QubitUnitary:  # noqa: D101  (duck-typed stand-in understood by pv.ref.sim.op_matrix)
+    def __init__(self, M, wires):
+        self.data = [np.asarray(M, dtype=complex)]
+        self.wires = list(wires)
+        self.hyperparameters = {}
+        self.has_matrix = True
+        self.has_decomposition = False
+
+
+def _wraps_leaf(o, leaf_op):
+    import pennylane as qp
+
+    while True:
+        if type(o) is type(leaf_op):
+            try:
+                return bool(qp.equal(o, leaf_op))
+            except Exception:  # noqa: BLE001
+                return False
+        if type(o).__name__ in ("Adjoint", "Adjoint2", "AdjointOperation", "Pow", "Pow2", "PowOperation", "Controlled", "ControlledOp",
+                                "ControlledOp2") and getattr(o, "base", None) is not None:
+            o = o.base
+        else:
+            return False
+
+
+def expand(ops, depth=0, force=False, leaf_op=None, leaf=None):
+    """Emitted operators the simulator cannot evaluate directly (templates without a matrix, e.g. PhaseAdder whose
+    `wires` even omit its work wire, and wrappers around them) are replaced by their own documented decomposition.
+    An emitted copy of the target's own leaf operator (pass-through rules such as cancel_adjoint, repeat_pow_base,
+    flip_control_adjoint) is evaluated with the *reference* semantics of that leaf, not with PennyLane's."""
     out = []
     for o in ops:
-        if o.has_matrix or type(o).__name__ in ("GlobalPhase", "Identity", "Barrier") or depth > 6:
+        if leaf_op is not None and _wraps_leaf(o, leaf_op) and not (type(o).__name__.startswith("Pow") and not float(o.z).is_integer()):
+            out.append(QubitUnitary(ref_matrix(o, leaf), o.wires))
+        elif depth > 12 or (simulable(o) and not (force and _needs_pl_matrix(o) and o.has_decomposition)):
             out.append(o)
         elif o.has_decomposition:
-            out.extend(expand(o.decomposition(), depth + 1))
+            out.extend(expand(o.decomposition(), depth + 1, force, leaf_op, leaf))
         else:
             # only registry rules define it (e.g. SemiAdder): use its first applicable allocation-free rule
             for r in R.applicable_rules(o):
                 sub = R.run_rule(o, r)
                 if not sub.allocs and not sub.has_measure:
-                    out.extend(expand(sub.ops, depth + 1))
+                    out.extend(expand(sub.ops, depth + 1, force, leaf_op, leaf))
                     break
             else:
                 raise Reject(f"emitted {type(o).__name__} has neither matrix, decomposition nor an allocation-free rule")
@@ -191,7 +269,12 @@ def analyse(spec, tier_maxw=None):
     op, rule, params = R.select(spec)
     run = R.run_rule(op, rule)
     name = R.reg_name(op)
-    sig = f"{name}:{rule.name}"
+    core = rule.name
+    while "(" in core:  # adjoint(controlled(_x)) -> _x : one bucket per underlying rule
+        core = core[core.index("(") + 1:core.rindex(")")]
+    # class-specific rules: one bucket per (leaf class, underlying rule); generic symbolic rules: one bucket per rule
+    sig = f"{R.leaf_of(spec['t'])['op']}:{core}" if core.startswith("_") and core != "_impl" else (
+        f"{name}:{rule.name}" if core == "_impl" else f"generic:{core}")
     return {"op": op, "rule": rule, "params": params, "run": run, "name": name, "sig": sig}
 
 
@@ -237,7 +320,17 @@ def check(spec):
     n, nb, nz = len(opw), len(any_w), len(zero_w)
     U = ref_matrix(op, leaf)
     D = domain(op, leaf)
-    V = sim.unitary(expand(run.ops), order)
+    emitted_matrix_error = False
+    leaf_op = R.build_target(leaf) if templates.reference(leaf, list(R.build_target(leaf).wires), _sub) is not None else None
+    try:
+        V = sim.unitary(expand(run.ops, leaf_op=leaf_op, leaf=leaf), order)
+    except Reject:
+        raise
+    except Exception:  # noqa: BLE001
+        # an *emitted* template could not produce its own matrix (not the rule's fault, and not this property's
+        # subject): evaluate such templates through their documented decomposition instead
+        emitted_matrix_error = _culprit(expand(run.ops, leaf_op=leaf_op, leaf=leaf))
+        V = sim.unitary(expand(run.ops, force=True, leaf_op=leaf_op, leaf=leaf), order)
     M = V.reshape(2**n, 2**nb, 2**nz, 2**n, 2**nb, 2**nz)[..., 0]  # zeroed inputs in |0>
     if D is None:
         D = np.eye(2**n, dtype=complex)
@@ -276,6 +369,11 @@ def check(spec):
         labels.append("dynamic-allocation")
     if not run.ops:
         labels.append("empty-decomposition")
+    if emitted_matrix_error:
+        # the rule itself is fine (checked above through the decomposition of the emitted template); the emitted
+        # operator's own matrix() raising is reported as its own bucket
+        cname, cfeat, cdetail = emitted_matrix_error
+        raise Viol("emitted-op-matrix-raised", f"{sig} emits {cdetail}", sig=f"{cname}.matrix", features=cfeat)
     return Result(not trivial, labels=labels)
 
 
